@@ -114,6 +114,8 @@ pub enum Ev
     LastPollBegin,
     LastPollEnd,
     Post(Box<Post>),
+    /// A tracked (slot) entity was despawned right now, by whatever cause (component remove hook).
+    Gone(u64),
     Panic(String),
     /// The bystander world misbehaved (message), or was observed (`ok` messages are not logged).
     Bystander(String),
